@@ -192,6 +192,16 @@ def check_region(ctx, case, L, region, pts, use_flags, light=False):
         for k in idx + idx[::3]:
             want[k] += 1
         cat = CSEPCatalog(data=ev2, region=region)
+        if "cells" in case and len(case["cells"]) >= 2 and len(ev2) % 2:
+            # the catalog object was counted on another region object first (same cells listed in reverse order, so the events are
+            # inside it too) and then re-bound: counts belong to the region it has now
+            rev = call(lambda: lattice.Lattice(dict(case, cells=list(reversed(case["cells"])), flags=None)).build("from_origins"))
+            if rev.ok:
+                cat = CSEPCatalog(data=ev2, region=rev.value)
+                call(cat.spatial_counts)
+                call(cat.spatial_event_probability)
+                cat.region = region
+                ctx.count("catalogs_rebound_after_counting_on_another_region")
         o = call(cat.spatial_counts)
         if not o.ok:
             ctx.unexpected(o, "spatial_counts")
